@@ -25,6 +25,7 @@ import (
 type Disc struct {
 	Sig string `json:"sig"`
 	Msg string `json:"msg"`
+	Ctx string `json:"ctx,omitempty"` // shared context (the executed history), printed once per failure
 }
 
 func D(sig, format string, a ...any) Disc { return Disc{Sig: sig, Msg: fmt.Sprintf(format, a...)} }
@@ -218,6 +219,9 @@ func (r *Rec) Finish(t testing.TB) {
 		fmt.Printf("VIOLATION-REPLAY property=%s replay=%s\n", r.ID, replayPath)
 		for _, d := range r.lastFail.Discs {
 			fmt.Printf("  discrepancy [%s] %s\n", d.Sig, d.Msg)
+		}
+		if len(r.lastFail.Discs) > 0 && r.lastFail.Discs[0].Ctx != "" {
+			fmt.Printf("%s\n", r.lastFail.Discs[0].Ctx)
 		}
 	}
 	path := os.Getenv("VERIF_STATS")
